@@ -142,6 +142,10 @@ def assumed_for(prop, used):
 def run_property(prop, tier, seed, procs):
     global _W
     t_start = time.time()
+    RP0 = os.environ.get('VERIF_REPLAY_DIR', os.path.join(BASE, 'replays'))
+    os.makedirs(os.path.join(RP0, prop), exist_ok=True)
+    for old in glob.glob(os.path.join(RP0, prop, '*.json')):
+        os.unlink(old)
     load_sidecar()
     _W = World()
     extra = getattr(contracts, 'PROP_RUNNERS', {}).get(prop)
@@ -266,9 +270,6 @@ def run_property(prop, tier, seed, procs):
     out_lines = []
     known_hits = []
     RP = os.environ.get('VERIF_REPLAY_DIR', os.path.join(BASE, 'replays'))
-    os.makedirs(os.path.join(RP, prop), exist_ok=True)
-    for old in glob.glob(os.path.join(RP, prop, '*.json')):
-        os.unlink(old)
     reported = set()
     for q, f in native_found.items():
         k = match_known(known, q, f.get('clause', ''), f)
@@ -409,6 +410,17 @@ def do_replay(path):
         if still:
             print('VIOLATION property=%s replay=%s' % (rec['property'], path))
             return 1
+        return 0
+    if rec.get('kind') == 'bounded-counterexample':
+        runners = contracts.PROP_RUNNERS.get(rec['property'], [])
+        bad = []
+        for fn in runners:
+            bad += fn('quick', 0).get('violations', [])
+        if bad:
+            print('replay: the bounded check still finds %s' % bad[0]['what'])
+            print('VIOLATION property=%s replay=%s' % (rec['property'], path))
+            return 1
+        print('replay: the bounded check finds no violation now')
         return 0
     print('replay file names failed obligation %s of %s (no native input); solver said %s' % (rec.get('obligation'), rec.get('function'), rec.get('verdict')))
     return 0
